@@ -1228,7 +1228,7 @@ run_task(_task_t t)
 static __attribute__((pure, const)) ev_tstamp
 instant_to_tstamp(echs_instant_t i)
 {
-/* this way around it's easier, date range supported is 2001 to 2099
+/* this way around it's easier, date range supported is 1901 to 2099
  * (i.e. with no bullshit leap years) */
 	static uint16_t __mon_yday[] = {
 		/* this is \sum ml,
@@ -1237,12 +1237,13 @@ instant_to_tstamp(echs_instant_t i)
 		31, 59, 90, 120, 151, 181,
 		212, 243, 273, 304, 334, 365
 	};
-	unsigned int nd = 0U;
+	const int y = (int)i.y - 2001;
+	int nd = 0;
 	time_t t;
 
 	/* days from 2001-01-01 till day 0 of current year,
-	 * i.e. i.y-01-00 */
-	nd += 365U * (i.y - 2001U) + (i.y - 2001U) / 4U;
+	 * i.e. i.y-01-00, years before 2001 count backwards */
+	nd += 365 * y + (y >= 0 ? y / 4 : (y - 3) / 4);
 	/* day-of-year */
 	nd += __mon_yday[i.m] + i.d + UNLIKELY(!(i.y % 4U) && i.m >= 3);
 
